@@ -393,6 +393,12 @@ def _next(ctx, repo, gna):
         atoms = []
         for tt in tests:
             atoms += tt.values if isinstance(tt, ast.BoolOp) and isinstance(tt.op, ast.And) else [tt]
+        # a named boolean stands for its (single) definition
+        ndefs = {}
+        for a_ in ast.walk(gna.node):
+            if isinstance(a_, ast.Assign) and len(a_.targets) == 1 and isinstance(a_.targets[0], ast.Name):
+                ndefs.setdefault(a_.targets[0].id, []).append(a_.value)
+        atoms = [ndefs[a.id][0] if isinstance(a, ast.Name) and len(ndefs.get(a.id, [])) == 1 else a for a in atoms]
         modes = [a for a in atoms if norm(a) in (f"{pmode} == 'min'", f"'min' == {pmode}")]
         rest = [a for a in atoms if a not in modes]
         comps = [c for a in rest for c in ast.walk(a) if isinstance(c, ast.Compare)]
